@@ -485,6 +485,35 @@ pub fn skip_field_unsafe(input: &[u8]) -> Result<(usize, usize), String> {
     }
 }
 
+/// `skip_field_unsafe` with the iteration events of the skipper's loop (hook `verif_skip`):
+/// (result, events (ttype, index relative to the first iteration, len, stack), final index relative).
+pub type SkipEvents = Vec<(u8, usize, usize, Vec<(u8, u8, u32)>)>;
+pub fn skip_field_unsafe_traced(input: &[u8]) -> (Result<(usize, usize), String>, SkipEvents, usize) {
+    let mut evs: SkipEvents = vec![];
+    let mut fin = 0usize;
+    let r = catch_unwind(AssertUnwindSafe(|| -> Result<(usize, usize), String> {
+        let mut b = Bytes::copy_from_slice(input);
+        let mut p = unsafe { binary_unsafe::TBinaryUnsafeInputProtocol::new(&mut b) };
+        let c0 = p.consumed();
+        let f = p.read_field_begin().map_err(|e| format!("err: {e}"))?;
+        binary_unsafe::verif_skip::start();
+        let res = p.skip(f.field_type);
+        evs = binary_unsafe::verif_skip::take();
+        fin = p.verif_cursor().0;
+        let n = res.map_err(|e| format!("err: {e}"))?;
+        Ok((n, p.consumed() - c0))
+    }));
+    let base = evs.first().map(|e| e.1).unwrap_or(0);
+    for e in evs.iter_mut() {
+        e.1 -= base;
+    }
+    let fin = fin.saturating_sub(base);
+    match r {
+        Ok(x) => (x, evs, fin),
+        Err(e) => (Err(panic_msg(e)), evs, fin),
+    }
+}
+
 // ---------------------------------------------------------------- asynchronous drivers
 use crate::aio::{block_on, read_tree_async, Sched, ScriptedReader};
 use pilota::thrift::TAsyncInputProtocol;
